@@ -344,7 +344,7 @@ pub fn rules_unit(ctx: &Ctx, rng: &mut Rng, o: &mut Out, share_vars: bool) {
       o.op(
         "oracle:isolate",
         json!({"t": tid, "core": dump, "regex": rxt, "spec": spec, "nodes": node_ids, "fp": format!("isolate:{}", sat_fingerprint(&spec))}),
-        json!(results),
+        json!(results.iter().map(project_bindings).collect::<Vec<_>>()),
       );
       if !share_vars {
         // C05 oracle: the reference semantics (Lean `Spec.sat`, run by the driver on the dumped
@@ -359,6 +359,17 @@ pub fn rules_unit(ctx: &Ctx, rng: &mut Rng, o: &mut Out, share_vars: bool) {
     }
   }
   o.oracle("rules-loaded", true, json!({"cases": loaded, "rejected": rejected, "contract_excluded_trees": excluded}));
+}
+
+/// what C04 speaks about: whether the node matched and the user-visible bindings (the matched
+/// node of a relation and the internal `secondary` label are not bindings)
+pub fn project_bindings(r: &Value) -> Value {
+  if !r.is_object() {
+    return r.clone();
+  }
+  let mut multi = r["env"]["m"].as_object().cloned().unwrap_or_default();
+  multi.remove("secondary");
+  json!({"matched": !r["m"].is_null(), "s": r["env"]["s"], "m": multi})
 }
 
 /// input-class fingerprint of a rule for the C05 oracle: which risky constructions it contains
